@@ -8,8 +8,14 @@
               `erase_cache`       : `_propagate_unlock` of every node of the subtree (base.py, _lazy.py), also when the unlock is refused
     base.py   `_erase_cache_up`   : the node and, transitively, its live lock parents (called by `_set_str(ignore_lock=True)`
                                     when an entry is rebound under lock: non-tensor indexed write, make_memmap*)
-  A memoised method is abstracted by the function it computes from the *bindings* of the subtree (key paths, identity of the
-  bound objects): `obs`.  In-place value writes do not change bindings, so a read that returns the stored leaves sees them.
+    _td.py    `names.setter`, `_erase_names`, `_rename_subtds`; base.py `_batch_size_setter`, `clear_device_`, `_set_device`;
+              _lazy.py `names.setter` (`@erase_cache`: its own cache only), `_erase_names`  — metadata assignments, accepted
+              under lock: `if self._is_locked: self._erase_cache_up()` before the attribute changes, then the nested tensordicts
+    _td.py    `_memmap_(inplace=True)` : `if self._is_locked: self._erase_cache_up()`, every leaf rebound to a memory-mapped
+              tensor, nested tensordicts in turn; then base.py `memmap_` -> `utils._lock_after_memmap` (C05 `memmapEv`)
+  A memoised method is abstracted by the function it computes from the *bindings and metadata* of the subtree (key paths, identity
+  of the bound objects, attribute values of every node below): `obs`.  In-place value writes do not change bindings, so a read
+  that returns the stored leaves sees them.
   Tensordict-valued reads (`flatten_keys`, `unflatten_keys`, `detach`) allocate a new object on every computation (`build`); the cache
   hands out the *same* object on every hit.
 -/
@@ -22,14 +28,17 @@ open TdVerif.C05
 inductive Ent where
   | leaf (obj : Nat)
   | node (id : Nat)
+  /-- a metadata attribute of the node at this path (dimension names, batch size, device, storage kind) -/
+  | attr (field value : Nat)
   deriving Repr, DecidableEq
 
 abbrev Content := List (List String × Ent)
 
-/-- bindings of the whole subtree of `i`, by key path (value versions are not part of it) -/
+/-- bindings and metadata of the whole subtree of `i`, by key path (value versions are not part of it) -/
 def contentF : Nat → Heap → Nat → Content
   | 0, _, _ => []
   | n + 1, h, i =>
+    (h.node i).attrs.map (fun a => ([], Ent.attr a.1 a.2)) ++
     (h.node i).leaves.map (fun e => ([e.1], Ent.leaf e.2.1)) ++
     (h.node i).kids.flatMap (fun e => ([e.1], Ent.node e.2) :: (contentF n h e.2).map (fun p => (e.1 :: p.1, p.2)))
 def content (h : Heap) (i : Nat) : Content := contentF (i + 1) h i
@@ -149,6 +158,14 @@ inductive CEv where
   /-- `_set_str(key, value, inplace=False, ignore_lock=True)`: binds `k` to a new object whatever the lock
   (non-tensor indexed write turning NonTensorData into a NonTensorStack, make_memmap*) -/
   | rebind (i : Nat) (k : String) (obj : Nat)
+  /-- a metadata assignment, accepted whatever the lock: `td.names = …` / `rename_` / `refine_names`, `td.batch_size = …`,
+  `clear_device_()` / `auto_device_()`.  `depth` = how far the setter walks down the plain tensordicts (names: the whole
+  subtree; `names = None`: one level (`_erase_names`); batch size: the node); lazy stacks always hand over to their members. -/
+  | setAttr (i field value depth : Nat)
+  /-- `memmap_(prefix)` (in place; also on an already memory-mapped tree with `copy_existing=True`): every leaf of every
+  tensordict below `i` is rebound to a new object (`news`: (node, key) ↦ identity of the memory-mapped tensor), then the tree
+  is locked (`Ev.viaMemmap`) -/
+  | memmap (i : Nat) (news : List ((Nat × String) × Nat))
   deriving Repr
 
 /-- does the event run `_propagate_unlock` on the subtree of `i`? -/
@@ -172,6 +189,56 @@ def erasedBy (s : State) (e : Ev) : List Nat :=
 def bindLeaf (n : LNode) (k : String) (obj : Nat) : LNode :=
   { n with kids := n.kids.filter (·.1 != k), leaves := n.leaves.filter (·.1 != k) ++ [(k, obj, 0)] }
 
+/-! ### metadata assignments -/
+
+def setField (l : List (Nat × Nat)) (f v : Nat) : List (Nat × Nat) := (f, v) :: l.filter (fun a => a.1 != f)
+
+/-- the tensordicts whose attribute a setter called on `i` assigns: `i`, then the entries of a plain tensordict while `d > 0`;
+a lazy stack hands over to its members without consuming depth (mirrors `_rename_subtds` / `_erase_names` / `clear_device_`
+of _td.py, base.py and _lazy.py) -/
+def attrTargetsF : Nat → Heap → Nat → Nat → List Nat
+  | 0, _, _, i => [i]
+  | n + 1, h, d, i =>
+    if (h.node i).lazy then i :: (kidIds h i).flatMap (attrTargetsF n h d)
+    else if d = 0 then [i]
+    else i :: (kidIds h i).flatMap (attrTargetsF n h (d - 1))
+def attrTargets (h : Heap) (d i : Nat) : List Nat := attrTargetsF (i + 1) h d i
+
+/-- one tensordict: the cache invalidation of the setter, then the assignment.
+plain tensordict: `if self._is_locked: self._erase_cache_up()`; lazy stack: `@erase_cache` (its own cache only — the
+tensordicts that hold the stack are reached through the setters of its members) -/
+def attrTouch (s : CState) (j f v : Nat) : CState :=
+  { base := { s.base with heap := s.heap.upd j (fun n => { n with attrs := setField n.attrs f v }) },
+    cache := if (s.heap.node j).lazy then eraseAt s.cache j
+             else if flagged s.heap j then eraseUpF s.heap.size s.heap s.cache j else s.cache }
+
+def setAttrEv (s : CState) (i f v d : Nat) : CState :=
+  (attrTargets s.heap d i).foldl (fun acc j => attrTouch acc j f v) s
+
+/-- every lazy stack among the targets hands over to a plain tensordict that is a target too (false only for an empty
+lazy stack, which `NonEmptyLazy` excludes, or when the walk is cut short) -/
+def lazyCovered (h : Heap) (ts : List Nat) : Bool :=
+  ts.all (fun j => !(h.node j).lazy || ts.any (fun k => !(h.node k).lazy && reachB h j k))
+where
+  reachB (h : Heap) (j k : Nat) : Bool := (attrTargetsF (j + 1) h (j + 1) j).contains k
+
+/-! ### `memmap_` -/
+
+def newLeaf (news : List ((Nat × String) × Nat)) (j : Nat) (e : String × Nat × Nat) : String × Nat × Nat :=
+  match news.lookup (j, e.1) with
+  | some o => (e.1, o, e.2.2)
+  | none => e
+
+/-- one plain tensordict of the tree: `_memmap_(inplace=True)` — `_erase_cache_up()` when locked, then every leaf rebound -/
+def memmapTouch (news : List ((Nat × String) × Nat)) (s : CState) (j : Nat) : CState :=
+  if (s.heap.node j).lazy then s      -- a lazy stack has no leaf of its own: `_memmap_` only recurses into the members
+  else
+    { base := { s.base with heap := s.heap.upd j (fun n => { n with leaves := n.leaves.map (newLeaf news j) }) },
+      cache := if flagged s.heap j then eraseUpF s.heap.size s.heap s.cache j else s.cache }
+
+def memmapLeaves (s : CState) (i : Nat) (news : List ((Nat × String) × Nat)) : CState :=
+  (attrTargets s.heap s.heap.size i).foldl (memmapTouch news) s
+
 def cstep (sem : Sem) (s : CState) : CEv → CState × Out
   | .base e =>
     let r := step s.base e
@@ -183,6 +250,14 @@ def cstep (sem : Sem) (s : CState) : CEv → CState × Out
       let h' := s.heap.upd i (fun n => bindLeaf n k obj)
       let c := if flagged s.heap i then eraseUpF s.heap.size s.heap s.cache i else s.cache
       ({ base := { s.base with heap := h' }, cache := c }, .ok)
+    else (s, .errOther)
+  | .setAttr i f v d =>
+    if live s.heap i && i < s.heap.size then (setAttrEv s i f v d, .ok) else (s, .errOther)
+  | .memmap i news =>
+    if live s.heap i && i < s.heap.size then
+      let s1 := memmapLeaves s i news
+      let r := step s1.base (.viaMemmap i)
+      ({ base := r.1, cache := eraseMany s1.cache (erasedBy s1.base (.viaMemmap i)) }, r.2)
     else (s, .errOther)
 where
   h_lazy (h : Heap) (i : Nat) : Bool := (h.node i).lazy
